@@ -293,6 +293,7 @@ func genC08(seed uint64, tier string) Plan {
 		p.Cfg.Concurrency = uint8(g.n(3))
 	}
 	p.Conns = g.conns(p.Cfg, 2)
+	g.gete = p.Cfg.Shape == "l1only" && p.Cfg.L1 != "chunked"
 	keys := g.keys(1 + g.n(3))
 	now := int64(946684800)
 	var opq uint32 = 1000
@@ -339,7 +340,7 @@ func init() {
 			}
 			return false
 		},
-		Rule:      "seeded pipelines (1-6 requests per byte stream, several pipelines per connection) of all supported requests incl. failing ones, quiet sets, multi-key and quiet gets, noop/version/stats, unknown and malformed text command lines x deployment shape x locking wrapper x protocol x segmentation; non-trivial = some pipeline holds more than one request; distinct = distinct plan hash",
+		Rule:      "seeded pipelines (1-6 requests per byte stream, several pipelines per connection) of all supported requests incl. failing ones, quiet sets, multi-key and quiet gets (in L1-only deployments with the direct handler also as GETE / GETEQ, rend's extension whose hits carry the expiry), noop/version/stats, unknown and malformed text command lines x deployment shape x locking wrapper x protocol x segmentation; non-trivial = some pipeline holds more than one request; distinct = distinct plan hash",
 		Real:      realFullStack,
 		Stub:      stubFullStack,
 		RunsQuick: 5000, RunsThorough: 120000,
